@@ -215,6 +215,8 @@ def run_threads(threads: List[Dict[str, Any]], policy: Dict[str, Any], pre: Opti
         "preemptions": sched.preemptions,
         "hot_switches": sched.hot_switches,
         "livelock": sched.livelock,
+        "deadlock": sched.deadlock,
+        "lock_blocks": sched.lock_blocks,
         "errors": {str(t): e for t, e in errors.items()},
     }
 
@@ -250,6 +252,14 @@ def execute(trace: Dict[str, Any]) -> Dict[str, Any]:
     trace_lark = bool(trace.get("trace_lark"))
     alone = {t["tid"]: _alone(t, pre, trace_lark) for t in threads}
     for tid, a in alone.items():
+        if a["errors"] and set(a["errors"].values()) == {"livelock"}:
+            # the thread's own operation list does not terminate even alone (e.g. it waits for a
+            # lock it leaked itself): a liveness failure of the library, not of the harness
+            return {"digest": kit.digest(["alone-livelock", tid]), "stats": {"steps": a["steps"]},
+                    "nontrivial": False, "states": [], "transitions": [], "extra": {},
+                    "switches": [], "log": [{"thread": tid, "alone": a["out"]}],
+                    "violations": [{"oracle": "bounded-liveness", "where": "alone", "thread": tid,
+                                    "sig": {"oracle": "bounded-liveness", "deadlock": True}}]}
         if a["errors"]:
             raise kit.HarnessError(f"alone run of thread {tid} failed in the harness: {a['errors']}")
     k = sum(a["steps"] for a in alone.values())
@@ -261,7 +271,8 @@ def execute(trace: Dict[str, Any]) -> Dict[str, Any]:
         raise kit.HarnessError(f"worker harness error: {res['errors']}")
     if res["livelock"]:
         violations.append({"oracle": "bounded-liveness", "steps": res["steps"], "alone_steps": k,
-                           "sig": {"oracle": "bounded-liveness"}})
+                           "deadlock": res["deadlock"],
+                           "sig": {"oracle": "bounded-liveness", "deadlock": res["deadlock"]}})
     runner_of = {t["tid"]: t["ops"][0]["cfg"]["runner"] for t in threads}
     for t in threads:
         tid = t["tid"]
@@ -319,6 +330,8 @@ def execute(trace: Dict[str, Any]) -> Dict[str, Any]:
             stats["probe_switch_in_lark"] = stats.get("probe_switch_in_lark", 0) + 1
     stats["steps"] = res["steps"]
     stats["preemptions"] = res["preemptions"]
+    if res["lock_blocks"]:
+        stats["probe_thread_blocked_on_library_lock"] = res["lock_blocks"]
     stats["policy_" + trace["policy"]["kind"]] = 1
     stats["threads"] = len(threads)
     stats["runners_" + "".join(sorted(set(runner_of.values())))] = 1
